@@ -510,8 +510,26 @@ class Interp:
                     return Unknown("captured format argument %s not found" % nm)
             if spec not in ("", None):
                 if spec == "?":
-                    return Unknown("debug formatting")
-                # width/precision specs only matter for numbers, which are opaque leaves
+                    # Debug of integers, booleans and vectors of them is their Display
+                    def dbg(x):
+                        if isinstance(x, bool):
+                            return "true" if x else "false"
+                        if isinstance(x, int):
+                            return str(x)
+                        if isinstance(x, ListV):
+                            parts = [dbg(y) for y in x.items]
+                            return None if any(q is None for q in parts) else "[" + ", ".join(parts) + "]"
+                        return None
+                    d = dbg(v)
+                    if d is None:
+                        return Unknown("debug formatting of %r" % (v,))
+                    rope.add(d)
+                    continue
+                mprec = re.fullmatch(r"\.(\d+)", spec)
+                if mprec and isinstance(v, float) and v == v and abs(v) != float("inf"):
+                    rope.add(format(v, ".%sf" % mprec.group(1)))
+                    continue
+                # other width/precision specs only matter for numbers, which are opaque leaves
                 r = self.display(v)
                 if is_unknown(r):
                     return r
@@ -1028,6 +1046,13 @@ class Interp:
                         f.env[k_] = env[k_]
         if isinstance(f, FnRef):
             pn = norm(f.path)
+            if len(args) == 1 and isinstance(args[0], str) and len(args[0]) == 1 and "char" in pn:
+                table = {"is_alphabetic": str.isalpha, "is_numeric": str.isnumeric, "is_alphanumeric": str.isalnum, "is_whitespace": str.isspace,
+                         "is_ascii_digit": lambda c: c in "0123456789", "is_ascii_alphabetic": lambda c: c.isascii() and c.isalpha(),
+                         "is_ascii_alphanumeric": lambda c: c.isascii() and c.isalnum(), "is_uppercase": str.isupper, "is_lowercase": str.islower}
+                for k_, f_ in table.items():
+                    if pn.endswith("::" + k_):
+                        return bool(f_(args[0]))
             if pn.endswith(("f64>::min", "f64>::max", "f64::min", "f64::max")) and len(args) == 2 and all(isinstance(a, (int, float)) and not isinstance(a, bool) for a in args):
                 a, b = float(args[0]), float(args[1])
                 if a != a:
@@ -1114,6 +1139,15 @@ class Interp:
                     r = self.apply(args[0], []) if name == "ok_or_else" else args[0]
                     return r if is_unknown(r) else Var(ERR_PATHS[0], [r])
                 if name == "and_then" and (some or none or ok or err):
+                    if none or err:
+                        return recv
+                    return self.apply(args[0], [recv.args[0]])
+            if len(args) == 2 and name in ("map_or", "map_or_else") and (some or none or ok or err):
+                if some or ok:
+                    return self.apply(args[1], [recv.args[0]])
+                return args[0] if name == "map_or" else self.apply(args[0], [recv.args[0]] if err else [])
+            if len(args) == 1:
+                if name == "and_then_" and (some or none or ok or err):
                     if none or err:
                         return recv
                     return self.apply(args[0], [recv.args[0]])
@@ -1281,6 +1315,66 @@ class Interp:
             return any(x == args[0] for x in recv.items)
         if name == "get" and isinstance(recv, ListV) and len(args) == 1 and isinstance(args[0], int):
             return Var(SOME_PATHS[0], [recv.items[args[0]]]) if 0 <= args[0] < len(recv.items) else Var(NONE_PATHS[0])
+        if name in ("trim_start_matches", "trim_end_matches", "starts_with", "ends_with", "trim", "trim_start", "trim_end") and isinstance(recv, (str, Rope)):
+            txt = recv if isinstance(recv, str) else (recv.text() if all(isinstance(x, str) for x in recv.pieces) else None)
+            if txt is not None:
+                if not args:
+                    return {"trim": txt.strip(), "trim_start": txt.lstrip(), "trim_end": txt.rstrip()}.get(name, Unknown(name))
+                pat = args[0]
+                if isinstance(pat, Rope) and all(isinstance(x, str) for x in pat.pieces):
+                    pat = pat.text()
+                pred = None
+                if isinstance(pat, FnRef):
+                    pn = norm(pat.path)
+                    table = {"is_alphabetic": str.isalpha, "is_numeric": str.isnumeric, "is_alphanumeric": str.isalnum, "is_whitespace": str.isspace,
+                             "is_ascii_digit": lambda c: c in "0123456789", "is_ascii_alphabetic": lambda c: c.isascii() and c.isalpha(), "is_uppercase": str.isupper, "is_lowercase": str.islower}
+                    for k_, f_ in table.items():
+                        if pn.endswith("::" + k_):
+                            pred = f_
+                if isinstance(pat, str) and pat:
+                    if name == "starts_with":
+                        return txt.startswith(pat)
+                    if name == "ends_with":
+                        return txt.endswith(pat)
+                    if name == "trim_start_matches":
+                        while txt.startswith(pat):
+                            txt = txt[len(pat):]
+                        return txt
+                    if name == "trim_end_matches":
+                        while txt.endswith(pat):
+                            txt = txt[:-len(pat)]
+                        return txt
+                if pred is not None:
+                    if name == "starts_with":
+                        return bool(txt) and pred(txt[0])
+                    if name == "ends_with":
+                        return bool(txt) and pred(txt[-1])
+                    if name == "trim_start_matches":
+                        while txt and pred(txt[0]):
+                            txt = txt[1:]
+                        return txt
+                    if name == "trim_end_matches":
+                        while txt and pred(txt[-1]):
+                            txt = txt[:-1]
+                        return txt
+        if name in ("strip_prefix", "strip_suffix", "chars", "to_lowercase", "to_uppercase", "to_ascii_lowercase", "to_ascii_uppercase") and isinstance(recv, (str, Rope)):
+            txt = recv if isinstance(recv, str) else (recv.text() if all(isinstance(x, str) for x in recv.pieces) else None)
+            if txt is not None:
+                if name == "chars" and not args:
+                    return ListV(list(txt))
+                if name in ("to_lowercase", "to_ascii_lowercase") and not args:
+                    return txt.lower()
+                if name in ("to_uppercase", "to_ascii_uppercase") and not args:
+                    return txt.upper()
+                if args:
+                    pat = args[0]
+                    if isinstance(pat, Rope) and all(isinstance(x, str) for x in pat.pieces):
+                        pat = pat.text()
+                    if isinstance(pat, str):
+                        if name == "strip_prefix":
+                            return Var(SOME_PATHS[0], [txt[len(pat):]]) if txt.startswith(pat) else Var(NONE_PATHS[0])
+                        if name == "strip_suffix":
+                            return Var(SOME_PATHS[0], [txt[:len(txt) - len(pat)]]) if txt.endswith(pat) else Var(NONE_PATHS[0])
         if name in ("split", "lines") and isinstance(recv, (str, Rope)):
             txt = recv if isinstance(recv, str) else recv
             sep = "\n" if name == "lines" else (args[0] if args else None)
@@ -1323,6 +1417,12 @@ class Interp:
                 return recv.text() == ""
             if isinstance(recv, Rope) and any(not isinstance(x, str) or x for x in recv.pieces):
                 return False
+        if name == "len" and isinstance(recv, (str, Rope)):
+            t = recv if isinstance(recv, str) else (recv.text() if all(isinstance(x, str) for x in recv.pieces) else None)
+            if t is not None:
+                return len(t.encode("utf8"))
+        if name == "repeat" and isinstance(recv, str) and len(args) == 1 and isinstance(args[0], int):
+            return recv * args[0]
         if name == "len" and isinstance(recv, ListV):
             return len(recv.items)
         if name == "unwrap" and isinstance(recv, Var) and recv.args and (recv.path in OK_PATHS or recv.path in SOME_PATHS):
@@ -1331,6 +1431,11 @@ class Interp:
             return abs(recv)
         if name == "powi" and isinstance(recv, (int, float)) and len(args) == 1 and isinstance(args[0], int):
             return float(recv) ** args[0]
+        if name == "fract" and not args and isinstance(recv, float):
+            import math as _m
+            return _m.fmod(recv, 1.0) if recv == recv and abs(recv) != float("inf") else float("nan")
+        if name in ("values", "keys") and not args and isinstance(recv, ListV) and all(isinstance(x, tuple) and len(x) == 2 for x in recv.items):
+            return ListV([x[1] if name == "values" else x[0] for x in recv.items])
         if name == "is_zero" and not args and isinstance(recv, (int, float)) and not isinstance(recv, bool):
             return recv == 0
         if name in ("is_nan",) and isinstance(recv, float):
@@ -1388,6 +1493,18 @@ class Interp:
         if lhs["k"] == "Path" and lhs.get("res") == "local":
             env[lhs["id"]] = v
             return UNIT
+        if lhs["k"] == "Index":
+            base = self.ev(lhs["a"], env)
+            i = self.ev(lhs["i"], env)
+            if isinstance(base, ListV) and isinstance(i, int) and 0 <= i < len(base.items):
+                base.items[i] = v
+                return UNIT
+            return Unknown("indexed assignment")
+        if lhs["k"] == "Field":
+            base = self.ev(lhs["a"], env)
+            if isinstance(base, Var) and lhs["name"] in base.fields:
+                base.fields[lhs["name"]] = v
+                return UNIT
         return Unknown("assignment to non-local")
 
     def ev_AssignOp(self, n, env):
